@@ -67,6 +67,10 @@ DoQSolve ==
 \* GFb127: add the low bit of val at bit index k (0..126)
 DoXorBit == Is("xor_bit") /\ Write(LET v == Bit(FromBytesLE(e.val), 0)
                                    IN <<BitXor(R(e.a)[1], IF v = 1 THEN Pow2(e.k) ELSE Zero), Zero>>)
+\* GFb254 = GF(2^127)[u]: components, construction from components, product by an element of GF(2^127)
+DoToComponents == Is("to_components") /\ Observe(Has("c0") /\ e.c0 = B1Enc(R(e.a)[1]) /\ e.c1 = B1Enc(R(e.a)[2]))
+DoFromB127 == Is("from_b127") /\ Write(<<B1Red(FromBytesLE(e.c0)), B1Red(FromBytesLE(e.c1))>>)
+DoMulB127 == Is("mul_b127") /\ Write(B2Scale(R(e.a), B1Red(FromBytesLE(e.c))))
 \* GFb127: write the low bit of val at bit index k
 DoSetBit == Is("set_bit") /\ Write(LET v == Bit(FromBytesLE(e.val), 0)
                                        x == R(e.a)[1]
@@ -106,7 +110,7 @@ DoLookup ==
 
 Next == \/ DoInit \/ DoRaw \/ DoAdd \/ DoSub \/ DoNeg \/ DoMul \/ DoSquare \/ DoXSquare \/ DoDiv \/ DoInvert \/ DoSqrt
         \/ DoMulSb \/ DoMulB \/ DoDivZ \/ DoDivZ2 \/ DoMulU \/ DoMulU1 \/ DoSelfPhi \/ DoTrace \/ DoHalfTrace \/ DoQSolve
-        \/ DoGetBit \/ DoXorBit \/ DoSetBit \/ DoEncode \/ DoEquals \/ DoIsZero \/ DoDecodeCt \/ DoDecode \/ DoSetCond \/ DoSelect \/ DoCSwap
+        \/ DoGetBit \/ DoXorBit \/ DoSetBit \/ DoToComponents \/ DoFromB127 \/ DoMulB127 \/ DoEncode \/ DoEquals \/ DoIsZero \/ DoDecodeCt \/ DoDecode \/ DoSetCond \/ DoSelect \/ DoCSwap
         \/ DoLookup
 Spec == Init /\ [][Next]_vars
 Consumed == TLCGet("stats").diameter - 1
